@@ -86,6 +86,13 @@ func Sigmoid(X tensor.Tensor) (tensor.Tensor, error) {
 
 // ReLU performs the ReLU operation on a tensor.
 func ReLU(X tensor.Tensor) (tensor.Tensor, error) {
+	switch X.Dtype() {
+	case tensor.Float32:
+		return X.Apply(relu[float32])
+	case tensor.Float64:
+		return X.Apply(relu[float64])
+	}
+
 	typedZero, err := GetValueAsTensorType(0.0, X.Dtype())
 	if err != nil {
 		return nil, err
@@ -97,4 +104,13 @@ func ReLU(X tensor.Tensor) (tensor.Tensor, error) {
 	}
 
 	return tensor.Mul(X, comparison)
+}
+
+// relu returns x for x > 0 and zero otherwise; NaN is propagated.
+func relu[T FloatType](x T) T {
+	if x < 0 {
+		return 0
+	}
+
+	return x
 }
